@@ -85,7 +85,10 @@ func runIncidents(c *run.Ctx, kinds []string) {
 		if failDials > 0 {
 			failDials--
 			// what Dialers report: none of these means that the Client got closed
-			switch w.Rng.Intn(6) {
+			switch w.Rng.Intn(7) {
+			case 6:
+				// a Dialer with a context of its own that it cancels itself
+				return sim.DialDecision{Err: context.Canceled}
 			case 0:
 				return sim.DialDecision{Err: fmt.Errorf("sim: dial tcp: lookup broker: %w", context.Canceled)}
 			case 1:
